@@ -103,3 +103,22 @@ def c12_date2num_hour_only(v, spec):
     # the two directions disagree by the reference hour.
     return (v['kind'] in ('date2num-not-inverse', 'time2idx-not-identity')
             and spec.get('form') in (2, 5, 9))
+
+
+@pred('C13-wind-read-single-step-hang')
+def c13_wind_read_hang(v, spec):
+    # wind.Read.__gettimestep scans forward for the NEXT time-header record
+    # and ignores that RecordFile.next() reports end-of-file: on a valid file
+    # with a single time step it spins for ever.
+    return (v['kind'] == 'reader-does-not-terminate:wind:Read' and
+            spec.get('fmt') == 'wind' and spec.get('nt') == 1)
+
+
+@pred('C13-uamiv-read-emissions-one-layer')
+def c13_uamiv_emis(v, spec):
+    # uamiv.Read hard-codes one layer for files named EMISSIONS although the
+    # header (and the memory-map reader) may say nz > 1.
+    pr = v.get('problems') or []
+    return (v['kind'] == 'readers-disagree:uamiv' and
+            spec.get('name') == 'EMISSIONS' and spec.get('nz', 1) > 1 and
+            bool(pr) and all(('LAY' in p) or ('shape' in p) for p in pr))
